@@ -16,10 +16,41 @@ THEOREMS = [
     "PV.C18.insertSeparator_eq_groupRight",
     "PV.C18.group_spec",
     "PV.C18.align_spec",
+    "PV.C18.zero_flag_spec",
     "PV.C18.format_int_eq_partial",
     "PV.C18.format_str_eq_partial",
     "PV.C18.format_bool_eq_partial",
     "PV.C18.no_panic_partial",
+    "PV.C18.no_panic_fails",
+    "PV.C18.format_eq_fails",
+    "PV.C18.dev_conv_prefix",
+    "PV.C18.dev_z_flag",
+    "PV.C18.dev_group_exp_panic",
+    "PV.C18.dev_str_eq_align",
+    "PV.C18.dev_str_sign",
+    "PV.C18.dev_str_alt",
+    "PV.C18.dev_str_precision_bytes",
+    "PV.C18.dev_str_precision_after_padding",
+    "PV.C18.dev_str_zero_flag",
+    "PV.C18.dev_bool_default",
+    "PV.C18.dev_c_precision",
+    "PV.C18.dev_c_nonascii_width",
+    "PV.C18.dev_c_surrogate",
+    "PV.C18.dev_group_width",
+    "PV.C18.dev_width_wraps",
+    "PV.C18.dev_precision_over_i32",
+    "PV.C18.dev_z_flag_float",
+    "PV.C18.dev_group_exp_panic_float",
+    "PV.C18.dev_group_nonfinite",
+    "PV.C18.dev_int_above_f64max",
+    "PV.C18.dev_float_group_exponent",
+    "PV.C18.dev_float_near_integer",
+    "PV.C18.dev_float_tie",
+    "PV.C18.dev_float_alt_no_point",
+    "PV.C18.dev_float_precision_zero",
+    "PV.C18.dev_float_no_dot_zero",
+    "PV.C18.dev_float_percent_overflow",
+    "PV.C18.dev_precision_over_u16",
 ]
 TRUSTED = [
     "Lean 4.33.0 kernel; axioms limited to propext, Classical.choice, Quot.sound",
@@ -594,8 +625,57 @@ def _kind(v):
     return "b" if isinstance(v, bool) else "i" if isinstance(v, int) else "f" if isinstance(v, float) else "s"
 
 
+def _validate_spec(ctx):
+    """Spec validation (DESIGN 1.1): run the Lean reference `Spec.pyFormat` (driver op `pyfmt`) and
+    CPython on the same inputs.  A difference is a defect of the *spec*, never a violation of the
+    property: it is recorded in the evidence (`spec_validation`) and in the notes only."""
+    import core
+    drv = core.driver_path(DRIVER)
+    import os
+    if not os.path.exists(drv):
+        return
+    fixed = INTS + STRS + BOOLS + FLOATS + [0.9999999999999999, 600377706905611.2, 1e22, 1e23, 0.1, 9.5, 99999.5]
+    reqs = [mkreq(s, fixed) for s in _specs(3 if ctx.quick else 4)]
+    rng = ctx.rng("spec-validation")
+    for _ in range(5000 if ctx.quick else 100000):
+        s = _rand_spec(rng)
+        if rng.random() < 0.15:
+            s = _mutate(rng, s)
+        if max_number(s) >= 20000:
+            continue
+        reqs.append(mkreq(s, _rand_vals(rng)))
+    for _, s, v in PROBES:
+        if max_number(s) < 20000:
+            reqs.append(mkreq(s, [v]))
+    outs = core.run_lines([drv], ["py" + r for r in reqs], jobs=4 if ctx.quick else 16)
+    checked = bad = 0
+    examples = []
+    for r, o in zip(reqs, outs):
+        spec, vals = parse_req(r)
+        res = o.split(" ")
+        if len(res) != len(vals):
+            bad += 1
+            examples.append(f"{spec!r}: {o[:80]}")
+            continue
+        for (k, v), got in zip(vals, res):
+            checked += 1
+            exp = expected(spec, k, v)
+            if not matches(got, exp):
+                bad += 1
+                if len(examples) < 5:
+                    examples.append(f"pyFormat({spec!r}, {v!r}) = {_show(got)}, CPython {_show(exp)}")
+    ctx.extra["spec_validation"] = {"what": "Lean Spec.pyFormat vs CPython format()", "lines": len(reqs),
+                                    "values_checked": checked, "mismatches": bad, "examples": examples}
+    if bad:
+        ctx.notes.append(f"SPEC DEFECT: Spec.pyFormat differs from CPython on {bad} inputs, e.g. {examples[:2]}")
+
+
 def streams(ctx):
     out = []
+    try:
+        _validate_spec(ctx)
+    except Exception as e:  # never lets a spec-validation problem disturb the check
+        ctx.notes.append(f"spec validation not run: {e!r}")
     # 1. one deterministic probe per listed known finding + regression inputs
     reqs = [mkreq(s, [v]) for _, s, v in PROBES] + [mkreq(s, [v]) for s, v in REGRESSION]
     out.append(Stream("corpus", reqs, kind="corpus",
@@ -623,7 +703,7 @@ def streams(ctx):
 
     # 4. structured random specs (mostly valid), values outside the listed finding shapes
     rng = ctx.rng("random")
-    n = 6000 if ctx.quick else 150000
+    n = 30000 if ctx.quick else 150000
     reqs = []
     for _ in range(n):
         s = _rand_spec(rng)
@@ -640,7 +720,7 @@ def streams(ctx):
 
     # 5. malformed
     rng = ctx.rng("malformed")
-    n = 3000 if ctx.quick else 60000
+    n = 10000 if ctx.quick else 60000
     reqs = []
     pool = ALPHABET + list("EFGNrsa{}:;9") + ["日", "😀", "́", "18446744073709551616", "99999999999999999999",
                                               "2147483648", "00000000000000000000005"]
